@@ -22,7 +22,7 @@ FaultKill == [start |-> 2, stop |-> 0, kill |-> 1, post |-> 2, sil |-> 0, exp |-
 OnePost == [start |-> 0, stop |-> 0, kill |-> 0, post |-> 1, sil |-> 0, exp |-> 0, rl |-> 0]
 GenRestart == [start |-> 2, stop |-> 1, kill |-> 1, post |-> 3, sil |-> 1, exp |-> 0, rl |-> 0]
 QReload == [start |-> 0, stop |-> 0, kill |-> 0, post |-> 2, sil |-> 0, exp |-> 0, rl |-> 2]
-TReload == [start |-> 1, stop |-> 1, kill |-> 0, post |-> 2, sil |-> 0, exp |-> 0, rl |-> 3]
+TReload == [start |-> 0, stop |-> 0, kill |-> 0, post |-> 2, sil |-> 0, exp |-> 0, rl |-> 3]
 GenReload == [start |-> 0, stop |-> 0, kill |-> 0, post |-> 4, sil |-> 0, exp |-> 0, rl |-> 3]
 GenFaults == [start |-> 2, stop |-> 1, kill |-> 1, post |-> 4, sil |-> 1, exp |-> 1, rl |-> 0]
 GenHealthy == [start |-> 0, stop |-> 0, kill |-> 0, post |-> 4, sil |-> 0, exp |-> 0, rl |-> 0]
